@@ -281,7 +281,7 @@ LATER_RULES = {
     "C15": "R15c CP05 child iteration; R15d no keyword parser matches quoted text. R15e no capitalisation rule crawls a type that may be a quoted name (four known findings).",
     "C18": "R18e templating errors are kept on every path of the variant loop; 'unfiltered' counts also keep warning-level errors. R18f root_variant returns the first parsed variant or None.",
     "C19": "R19d sibling drivers share options; R19e records built from get_violations(filter_warning=False).",
-    "C20": "R20f restricted noqa map built from the full map; R20g the source fallback counts lines by the newline literal. R20f also: special error codes are expanded into a copy; R20h the ignore list reaches every filter.",
+    "C20": "R20i range directives are sorted by position only (source order within a line kept); R20f restricted noqa map built from the full map; R20g the source fallback counts lines by the newline literal. R20f also: special error codes are expanded into a copy; R20h the ignore list reaches every filter.",
     "C21": "R21l the kwargs dict of each rule in get_rulepack is created inside the iteration (no alias of the generic config or a section). R21g dialect collections never changed in place by rules; R21h the selector expander drops no selector; R21i derived selection lists recomputed on every path. R21j default-to-all only on the configured allow-list; R21k the simple API distinguishes 'not given' from empty.",
     "C22": "R22g parse-error counts reach the fix drivers' exit status only under not fix_even_unparsable.",
     "C23": "R23e per-record mappings carry nothing across iterations; R23f line fields from line numbers, column fields from columns. R23g optional positions tested with `is not None` in the lexer.",
